@@ -22,7 +22,8 @@ CLAIMED = {
         text="Seeded call histories (<= 5 quick, <= 8 thorough) over a pool of live BpSeq objects that may alias "
              "each other, checked step by step against fresh objects built from each object's birth triples "
              "(refinement against a trivial reference model), with frame checks on every pool member after "
-             "every step and independent spec clauses for both removals.",
+             "every step, independent spec clauses for every query and both removals (never re-running the code "
+             "under test), sibling originals with the same sequence or the same pairs, and every run in a forked child.",
         design_ref="DESIGN.md section 3 (C12)",
         note="Trusted: the reference decoders in /verif/sim/oracles.py. Call sequences, not threads: the library "
              "promises no thread safety and the property quantifies over histories.",
@@ -30,13 +31,16 @@ CLAIMED = {
     ),
     "C13": dict(
         category="fault_enumeration",
-        text="The complete fault catalogue (API level: raise before / after a partial result, each non-optimal "
+        text="The complete fault catalogue (API level: raise before / after a partial result / late, after status Optimal "
+             "and none, some or all values were recorded; each non-optimal "
              "status with untouched / partial / full stale values; real CBC wrapper with simulated process: not "
              "executable, exit code, missing solution file, Infeasible, Integer infeasible, Unbounded, Stopped "
              "with/without incumbent, unknown status word; real HiGHS wrapper likewise; no solver at all; real "
              "CBC binary) is enumerated for each seeded knotted structure, through both BpSeq.dot_bracket "
              "(solver selection code) and convert_to_dot_bracket(solver); plus seeded histories of 1-12 solves "
-             "in one simulated world with independent faults and every consumer of the notation.",
+             "in one simulated world (one process, persistent solver objects) with independent faults and every consumer "
+             "of the notation: elements, both removals, Mapping2D3D.dot_bracket / extended_dot_bracket and "
+             "annotator.extract_secondary_structure on the knotted corpus structures.",
         design_ref="DESIGN.md section 3 (C13), 2.4",
         note="Trusted: pulp 3.1.1 wrappers as installed; simulated CBC/HiGHS output formats are as faithful as "
              "pulp's readers require; the HiGHS binary is always the stub. Structures and histories sampled.",
@@ -44,9 +48,12 @@ CLAIMED = {
     ),
     "C14": dict(
         category="exploration",
-        text="The interpreter hash seed is the nondeterminism source: K fresh interpreters (8 quick, 48 thorough) "
-             "under different PYTHONHASHSEED values (incl. 'random') each compute every output kind for the corpus "
-             "and for generated structures twice in-process; all digests of one (input, output kind) must agree.",
+        text="The interpreter is the nondeterminism source: fresh interpreters under different PYTHONHASHSEED values "
+             "(8 quick / 48 thorough incl. 'random' on the whole workload, 16 / 80 more on its light part) each compute "
+             "every output kind for the corpus, the package's other command-line tools and generated structures twice "
+             "in-process, each interpreter visiting its items in its own seeded order; all digests of one (input, "
+             "output kind) must agree. Differences that need what ran before in the process are replayed as whole "
+             "interpreter contexts.",
         design_ref="DESIGN.md section 3 (C14)",
         note="Trusted: sha256. Object-address-dependent hashing is sampled by the same fresh interpreters but cannot "
              "be steered. A 2-element hash-ordered set escapes K seeds with probability 2^-(K-1).",
